@@ -17,6 +17,7 @@ import (
 	"fmt"
 	"os"
 	"os/exec"
+	"path/filepath"
 	"regexp"
 	"strconv"
 	"strings"
@@ -47,7 +48,7 @@ const catalogueYAML = `global:
     replica: r0
 rule_files:
 - /etc/prometheus/rules/*.yml
-- /etc/prometheus/more/a.yml
+- relative/rules/a.yml
 alerting:
   alert_relabel_configs:
   - source_labels: [severity]
@@ -87,6 +88,7 @@ scrape_configs:
   tls_config:
     insecure_skip_verify: true
     server_name: node.example
+    ca_file: certs/ca.pem
   relabel_configs:
   - source_labels: [__meta_kubernetes_pod_label_app, __meta_kubernetes_namespace]
     separator: ;
@@ -116,7 +118,7 @@ scrape_configs:
     labels:
       rack: r1
   file_sd_configs:
-  - files: ["/etc/sd/*.json"]
+  - files: ["/etc/sd/*.json", "sd/relative-*.json"]
     refresh_interval: 3m
 - job_name: app
   bearer_token: apptoken
@@ -378,12 +380,32 @@ func genEdits() []chEdit {
 	return out
 }
 
+// fileHashOf: the coordinator reads its configuration from a file (ReloadFromFile), the sidecars get the
+// same bytes pushed (ReloadFromRaw): both must arrive at the same hash
+func fileHashOf(dir, yamlText string) (string, error) {
+	f := filepath.Join(dir, "sub", "prometheus.yml")
+	_ = os.MkdirAll(filepath.Dir(f), 0755)
+	if err := os.WriteFile(f, []byte(yamlText), 0644); err != nil {
+		return "", err
+	}
+	m := prom.NewConfigManager()
+	if err := m.ReloadFromFile(f); err != nil {
+		return "", err
+	}
+	return m.ConfigInfo().ConfigHash, nil
+}
+
 func hashOf(yamlText string) (string, error) {
 	m := prom.NewConfigManager()
 	if err := m.ReloadFromRaw([]byte(yamlText)); err != nil {
 		return "", err
 	}
 	return m.ConfigInfo().ConfigHash, nil
+}
+
+func fileEq(dir, y, h string) bool {
+	fh, err := fileHashOf(dir, y)
+	return err == nil && fh == h
 }
 
 func cmdCfgHashChild(args []string) error {
@@ -454,7 +476,7 @@ func cmdCfgHash(args []string) error {
 		return rt.ConfigHash
 	}
 	_ = wr.Write(map[string]interface{}{"path": "", "class": "", "kind": "base", "what": "catalogue", "loads": true,
-		"changed": false, "childEqual": childBase == base, "apiEqual": apiHash(catalogueYAML) == base})
+		"changed": false, "childEqual": childBase == base, "apiEqual": apiHash(catalogueYAML) == base, "fileEqual": fileEq(dir, catalogueYAML, base)})
 	for _, e := range edits {
 		h, err := hashOf(e.YAML)
 		rec := map[string]interface{}{"path": e.Path, "class": e.Class, "kind": e.Kind, "what": e.What}
@@ -467,6 +489,7 @@ func cmdCfgHash(args []string) error {
 		rec["changed"] = h != base
 		rec["childEqual"] = childHash(e.YAML) == h
 		rec["apiEqual"] = apiHash(e.YAML) == h
+		rec["fileEqual"] = fileEq(dir, e.YAML, h)
 		_ = wr.Write(rec)
 	}
 	_ = stdin.Close()
